@@ -512,19 +512,28 @@ func (ctx *Ctx) rloop(path []byte, node *node, tpl *Tpl, w io.Writer) {
 			ctx.Err = v.ins.Loop(v.val, rl, &ctx.buf, ctx.bufS[1:]...)
 
 			// Check for-else condition.
-			if rl.c == 0 && len(node.child) > 1 && node.child[1].typ == typeCondFalse {
-				child := node.child[1].child
-				for j := 0; j < len(child); j++ {
-					ch := &child[j]
-					if ctx.Err = rl.tpl.writeNode(w, ch, ctx); ctx.Err != nil {
-						break
-					}
-				}
+			if rl.c == 0 {
+				ctx.rloopElse(node, tpl, w)
 			}
 
 			// Mark RL as free to use.
 			rl.stat = rlFree
 			return
+		}
+	}
+	// No such variable: nothing to iterate over.
+	ctx.rloopElse(node, tpl, w)
+}
+
+// Evaluate else branch of range loop.
+func (ctx *Ctx) rloopElse(node *node, tpl *Tpl, w io.Writer) {
+	if len(node.child) > 1 && node.child[1].typ == typeCondFalse {
+		child := node.child[1].child
+		for j := 0; j < len(child); j++ {
+			ch := &child[j]
+			if ctx.Err = tpl.writeNode(w, ch, ctx); ctx.Err != nil {
+				break
+			}
 		}
 	}
 }
